@@ -67,6 +67,18 @@ def pool_value_symbols(ir, acc=None, inside=False):
     return acc
 
 
+def pools(ir, acc=None):
+    """value lists of all PoolSum indices in the tree"""
+    acc = [] if acc is None else acc
+    if ir[0] == "A" and ir[1] == POOLSUM:
+        for idx in ir[2][1:]:
+            acc.append(list(idx[2][1][2]))
+    if ir[0] in "AU":
+        for a in ir[2]:
+            pools(a, acc)
+    return acc
+
+
 def has_unhashable(ir):
     if ir[0] == "U" and any(a[0] == "u" for a in ir[3]):
         return True
@@ -164,6 +176,8 @@ class Gen:
         vals = [("Y", r.choice(["Symbol('a')", "Symbol('c')"])), r.choice([("N", 2, 1), ("Y", "Symbol('c2')"), ("N", 3, 2)])]
         if r.random() < 0.3:
             vals.append(("N", 5, 1))
+        if r.random() < 0.15:
+            vals.append(vals[0])                                                        # an explicitly repeated pool value
         idxs = [("A", TUPLE, [i, ("A", TUPLE, vals)])]
         if r.random() < 0.2:
             kk = ("Y", f"Symbol('k{idx}')")                                            # an index occurring nowhere
@@ -233,6 +247,11 @@ class Gen:
         if sw and r.random() < 0.5:
             # switch a coefficient of the summand off/on: the summand may lose its dependence on the index
             return "switch", [(("Y", k), ("N", r.choice([0, 0, 1]), 1)) for k in r.sample(sw, r.choice([1, len(sw)]))], []
+        merge = [(v, w) for p in pools(ir) for v in p for w in p if v[0] == "Y" and w != v]
+        if merge and r.random() < 0.35:
+            # make two pool values COINCIDE: the sum still has one term per entry
+            v, w = r.choice(merge)
+            return "merge", [(v, w)], []
         pv = sorted(pool_value_symbols(ir))
         if pv and r.random() < 0.6:
             # a map that touches ONLY the pool values of a PoolSum
